@@ -194,6 +194,8 @@ class Check:
             I.cur_name = lambda: I.obl_prefix + (f'#{label}' if label else '')
             S = Scenario(self, func_name, label, I)
             run._S = S
+            if hasattr(theory, 'bind'):
+                theory.bind(I)
             try:
                 return body(S)
             finally:
